@@ -42,6 +42,8 @@ pub enum DOp {
     PushWeakKid(usize, usize),
     TakeKid(usize),
     ClearKids(usize),
+    /// comparisons through two handles to one allocation of a PartialEq-only payload (NaN or not)
+    PartialCmp(bool, u32),
 }
 
 pub const NV: usize = 8;
@@ -53,7 +55,7 @@ pub fn gen_program(seed: u64, len: usize) -> Vec<DOp> {
     for _ in 0..len {
         let v = r.below(NV);
         let u = r.below(NV);
-        let op = match r.below(60) {
+        let op = match r.below(61) {
             0..=5 => {
                 tag += 1;
                 DOp::New(tag)
@@ -107,6 +109,7 @@ pub fn gen_program(seed: u64, len: usize) -> Vec<DOp> {
             }
             57 => DOp::PushWeakKid(v, u),
             58 => DOp::TakeKid(v),
+            59 => DOp::PartialCmp(r.chance(1, 2), tag),
             _ => DOp::ClearKids(v),
         };
         p.push(op);
@@ -478,6 +481,18 @@ macro_rules! interp {
                                 }
                                 None => "skip".into(),
                             }
+                        }
+                        DOp::PartialCmp(nan, t) => {
+                            let val = if *nan { f64::NAN } else { *t as f64 };
+                            let x: Rc<f64> = Rc::new(val);
+                            let y = Rc::clone(&x);
+                            let z: Rc<f64> = Rc::new(val);
+                            let wx = Rc::downgrade(&x);
+                            let u = wx.upgrade().expect("alive");
+                            format!(
+                                "partial_cmp nan={} same-alloc eq {} ne {} lt {} le {} pcmp {:?} self-eq {} upgraded-eq {} other-alloc eq {} ne {} pcmp {:?}",
+                                nan, x == y, x != y, x < y, x <= y, x.partial_cmp(&y), x == x, x == u, x == z, x != z, x.partial_cmp(&z)
+                            )
                         }
                         DOp::ClearKids(p) => match &vars[*p] {
                             Some(pp) => {
